@@ -46,6 +46,17 @@ class DType(object):
         return 'dtype(%s)' % self.name
 
 
+class StringDtype(DType):
+    """pandas' string extension dtype (the default dtype of string columns in pandas 3)"""
+
+    def __init__(self, *a, **k):
+        DType.__init__(self, 'str')
+
+
+def make_dtype(name):
+    return StringDtype() if name == 'str' else DType(name)
+
+
 def is_missing_value(v):
     """pd.isnull on a scalar.  Cells carry a symbolic flag."""
     if hasattr(v, 'missing'):
@@ -430,6 +441,7 @@ class PdModule(object):
     """Stands for the `pd` name inside repo modules."""
     DataFrame = FakeFrame
     Series = FakeSeries
+    StringDtype = StringDtype
     concat = staticmethod(concat)
     isnull = staticmethod(isnull)
     isna = staticmethod(isnull)
